@@ -1576,15 +1576,124 @@ def _guards_registration(g, node):
     return False
 
 
+def _unique_when_true(node):
+    """True / False: the comparison holds exactly when the name is unique / exactly when it is ambiguous.  None: neither."""
+    op = type(node.ops[0]).__name__
+    rhs = node.comparators[0]
+    if isinstance(node.left, ast.Call) and isinstance(node.left.func, ast.Attribute) and node.left.func.attr == "count" and isinstance(rhs, ast.Constant):
+        if (op, rhs.value) in (("Eq", 1), ("Lt", 2), ("LtE", 1)):
+            return True
+        if (op, rhs.value) in (("NotEq", 1), ("Gt", 1), ("GtE", 2)):
+            return False
+        return None
+    # len(set(L + [c1, ..., ck])) == len(L) + k
+    for a_, b_ in ((node.left, rhs), (rhs, node.left)):
+        if isinstance(a_, ast.Call) and isinstance(a_.func, ast.Name) and a_.func.id == "len" and a_.args and isinstance(a_.args[0], ast.Call) and \
+                isinstance(a_.args[0].func, ast.Name) and a_.args[0].func.id == "set":
+            inner = a_.args[0].args[0] if a_.args[0].args else None
+            k = 0
+            lst = None
+            if isinstance(inner, ast.BinOp) and isinstance(inner.op, ast.Add):
+                for side in (inner.left, inner.right):
+                    if isinstance(side, (ast.List, ast.Tuple)):
+                        k += len(side.elts)
+                    elif isinstance(side, ast.Name):
+                        lst = side.id
+            elif isinstance(inner, ast.Name):
+                lst = inner.id
+            if lst is None:
+                return None
+            want = f"len({lst})" + (f" + {k}" if k else "")
+            if ast.unparse(b_).replace(" ", "") in (want.replace(" ", ""), (f"{k}+len({lst})" if k else want).replace(" ", "")):
+                return True if op == "Eq" else (False if op == "NotEq" else None)
+            return None
+    return None
+
+
+def _guard_polarity(g, node):
+    """For the `if` statements of g whose test is the comparison `node` (possibly negated, possibly through a local flag): is the joined
+    name used in the arm where the name is unique?  'ok' / 'reversed' / None (cannot tell)."""
+    uw = _unique_when_true(node)
+    if uw is None:
+        return 'meaningless'
+    flags = {}
+    for st in ast.walk(g.node):
+        if isinstance(st, ast.Assign) and len(st.targets) == 1 and isinstance(st.targets[0], ast.Name):
+            v, neg = st.value, False
+            while isinstance(v, ast.UnaryOp) and isinstance(v.op, ast.Not):
+                v, neg = v.operand, not neg
+            if v is node:
+                flags[st.targets[0].id] = neg
+
+    def named_joined(stmts):
+        for s_ in stmts:
+            for x in ast.walk(s_):
+                if isinstance(x, ast.Assign) and len(x.targets) == 1 and isinstance(x.targets[0], ast.Subscript) and \
+                        isinstance(x.targets[0].value, ast.Attribute) and x.targets[0].value.attr == "submodules":
+                    key = x.targets[0].slice
+                    if not (isinstance(key, ast.JoinedStr) and any(isinstance(v_, ast.FormattedValue) for v_ in key.values)):
+                        return True
+                if isinstance(x, ast.Yield) and isinstance(x.value, ast.Tuple) and x.value.elts and not isinstance(x.value.elts[0], (ast.JoinedStr, ast.Constant)):
+                    return True
+        return False
+
+    def other_way(stmts):
+        for s_ in stmts:
+            for x in ast.walk(s_):
+                if isinstance(x, ast.AugAssign) and isinstance(x.target, ast.Attribute) and x.target.attr == "submodules":
+                    return True
+                if isinstance(x, ast.Assign) and len(x.targets) == 1 and isinstance(x.targets[0], ast.Subscript) and \
+                        isinstance(x.targets[0].value, ast.Attribute) and x.targets[0].value.attr == "submodules" and \
+                        isinstance(x.targets[0].slice, ast.JoinedStr):
+                    return True
+                if isinstance(x, ast.Yield) and isinstance(x.value, ast.Tuple) and x.value.elts and isinstance(x.value.elts[0], ast.JoinedStr):
+                    return True
+                if isinstance(x, ast.Assign) and isinstance(x.value, ast.Constant) and x.value.value is None:
+                    return True
+        return False
+    verdicts = []
+    for st in ast.walk(g.node):
+        if not isinstance(st, ast.If):
+            continue
+        # polarity of the node inside the test: only plain / negated / conjunction forms are judged
+        t, neg = st.test, False
+        while isinstance(t, ast.UnaryOp) and isinstance(t.op, ast.Not):
+            t, neg = t.operand, not neg
+        parts = t.values if isinstance(t, ast.BoolOp) and isinstance(t.op, ast.And) and not neg else [t]
+        pos = None
+        for p_ in parts:
+            q, n2 = p_, neg
+            while isinstance(q, ast.UnaryOp) and isinstance(q.op, ast.Not):
+                q, n2 = q.operand, not n2
+            if q is node:
+                pos = not n2
+            elif isinstance(q, ast.Name) and q.id in flags:
+                pos = (not n2) != flags[q.id]
+        if pos is None:
+            continue
+        unique_arm, other_arm = (st.body, st.orelse) if (pos == uw) else (st.orelse, st.body)
+        if named_joined(unique_arm) and (other_way(other_arm) or not named_joined(other_arm)):
+            verdicts.append('ok')
+        elif named_joined(other_arm) and not named_joined(unique_arm):
+            verdicts.append('reversed')
+    if 'reversed' in verdicts:
+        return 'reversed'
+    return 'ok' if verdicts else None
+
+
 def _dedupe_evidence(idx, f, fixed):
     """Structural evidence of a uniqueness mechanism in f's closure: (what it is, whether the fixed names take part).  None if absent
-    or if the test does not decide any registration."""
+    or if the test does not decide any registration; the string 'reversed' / 'meaningless' when the test is there but the joined name
+    is used in the wrong arm / the comparison does not say "unique"."""
     r = _dedupe_evidence0(idx, f, fixed)
     if r is None:
         return None
     what, inc, g, node = r
     if not _guards_registration(g, node):
         return None
+    pol = _guard_polarity(g, node)
+    if pol in ('reversed', 'meaningless'):
+        return (what, pol)
     return what, inc
 
 
@@ -1724,6 +1833,12 @@ def computed_submodule_names(rep, idx):
                     "'0' -- give the same string" + (f", and a path may spell the fixed name(s) {sorted(fixed)} of this module" if fixed else "")
                     + "), and neither this function nor a helper it calls tests the names for uniqueness: the layouts are accepted, and Module "
                     "raises NameError('Submodule named ... already exists') when they are elaborated", line=st.lineno)
+        elif ev[1] == 'reversed':
+            rep.bad("C19.15", f.site, what, f"a uniqueness test is present ({ev[0]}) but the joined name is used in the arm where it is *not* unique "
+                    "(and the fallback where it is): ambiguous names still collide", line=st.lineno)
+        elif ev[1] == 'meaningless':
+            rep.bad("C19.15", f.site, what, f"the test ({ev[0]}) does not separate unique names from ambiguous ones (wrong constant or arithmetic): "
+                    "ambiguous names can still be used as submodule names", line=st.lineno)
         elif not ev[1]:
             rep.bad("C19.15", f.site, what, f"the uniqueness test ({ev[0]}) does not include the fixed submodule name(s) {sorted(fixed)} of the same "
                     "module: an item whose path spells one of them still collides", line=st.lineno)
